@@ -1,5 +1,8 @@
 import PysphVerif.Lemmas.Nnps
 import PysphVerif.Lemmas.NnpsTree
+import PysphVerif.Lemmas.NnpsHash
+import PysphVerif.Lemmas.NnpsCellIdx
+import PysphVerif.Lemmas.NnpsSubgrid
 import Mathlib.Data.Rat.Floor
 /-!
 # C01 — every neighbour-search algorithm returns exactly the true neighbour set
@@ -211,13 +214,306 @@ theorem nbrs_exact_grid_cellSize (rs tiny : α) (o : Pt α) (arrs : List (List (
   · intro p hp
     exact ⟨hpos src hs p hp, hcov _ (List.mem_map_of_mem hs) _ (List.mem_map_of_mem hp)⟩
 
+/-! ## per-class storage: LinkedList, BoxSort, SpatialHash, DictBoxSort -/
+
+/-- `flatten_raw` is injective on the cells that pass the `is_valid` test. -/
+theorem flatten_inj (nc : Nat × Nat × Nat) (a b : Cell) (ha : isValidCell nc a = true)
+    (hb : isValidCell nc b = true) (h : flattenCell nc a = flattenCell nc b) : a = b :=
+  flattenCell_inj nc a b ha hb h
+
+/-- The 27-cell loop with the `is_valid` test visits exactly the in-range cells adjacent to the
+destination's cell (±1 per axis), none twice; and their flattened indices are distinct and lie
+in `[0, ncx·ncy·ncz)`. -/
+theorem stencil_enumerates_valid (nc : Nat × Nat × Nat) (cq : Cell) :
+    ((stencilCells cq).filter (isValidCell nc)).Nodup ∧
+    (∀ c, c ∈ (stencilCells cq).filter (isValidCell nc) ↔
+      (inStencil cq c = true ∧ isValidCell nc c = true)) ∧
+    (((stencilCells cq).filter (isValidCell nc)).map (flattenCell nc)).Nodup ∧
+    ∀ c ∈ (stencilCells cq).filter (isValidCell nc),
+      0 ≤ flattenCell nc c ∧ flattenCell nc c < ((nc.1 * nc.2.1 * nc.2.2 : Nat) : Int) := by
+  have nd := (stencilCells_nodup cq).filter (isValidCell nc)
+  refine ⟨nd, ?_, ?_, ?_⟩
+  · intro c
+    rw [List.mem_filter, mem_stencilCells]
+  · refine nd.map_on ?_
+    intro a ha b hb hab
+    exact flattenCell_inj nc a b (List.mem_filter.mp ha).2 (List.mem_filter.mp hb).2 hab
+  · intro c hc
+    exact flattenCell_range nc c (List.mem_filter.mp hc).2
+
+/-- **hash_get_eq_cell.**  For every hash function (so for every table size ≥ 1 and whatever
+cells collide in a bucket), after any sequence of `add` calls the chain lookup `get(i,j,k)`
+returns exactly the particle indices that were added with the integer cell `(i,j,k)`, in
+insertion order (nothing when there is none): the chain compares the cell coordinates, not the
+key. -/
+theorem hash_get_eq_cell (hash : Cell → Nat) (items : List (Cell × Nat × α)) (c : Cell) :
+    HTable.indices hash (HTable.build hash items) c =
+      (items.filter (fun it => it.1 = c)).map (·.2.1) :=
+  indices_build hash items c
+
+/-- a particle not below the origin of the grid has non-negative cell coordinates -/
+theorem cell_nonneg (c : α) (o p : Pt α) (hc : 0 < c)
+    (hlo : o.x ≤ p.x ∧ o.y ≤ p.y ∧ o.z ≤ p.z) : nonnegCell (cell3 Int.floor c o p) = true := by
+  rw [nonnegCell_iff]
+  simp only [cell3, cellOf]
+  refine ⟨Int.floor_nonneg.mpr ?_, Int.floor_nonneg.mpr ?_, Int.floor_nonneg.mpr ?_⟩
+  · exact div_nonneg (sub_nonneg.mpr hlo.1) (le_of_lt hc)
+  · exact div_nonneg (sub_nonneg.mpr hlo.2.1) (le_of_lt hc)
+  · exact div_nonneg (sub_nonneg.mpr hlo.2.2) (le_of_lt hc)
+
+/-- A coordinate inside the bounds `[xmin, xmax)` (or the degenerate `xmin = x = xmax`) gets a
+cell index in `[0, ncx)` with `ncx = max 1 ⌈(xmax − xmin)/c⌉` as `_get_number_of_cells` computes
+it. -/
+theorem cell_in_range (x xmin xmax c : α) (hc : 0 < c) (h1 : xmin ≤ x)
+    (h2 : x < xmax ∨ x = xmin) :
+    0 ≤ ⌊(x - xmin) / c⌋ ∧ ⌊(x - xmin) / c⌋ < max 1 ⌈(xmax - xmin) / c⌉ := by
+  refine ⟨Int.floor_nonneg.mpr (div_nonneg (sub_nonneg.mpr h1) (le_of_lt hc)), ?_⟩
+  rcases h2 with h2 | h2
+  · refine lt_of_lt_of_le ?_ (le_max_right _ _)
+    rw [Int.floor_lt]
+    refine lt_of_lt_of_le ?_ (Int.le_ceil _)
+    exact div_lt_div_of_pos_right (by linarith) hc
+  · refine lt_of_lt_of_le ?_ (le_max_left _ _)
+    rw [h2, sub_self, zero_div, Int.floor_zero]
+    exact Int.zero_lt_one
+
+private theorem cellAt_valid (c : α) (o : Pt α) (src : List (Pt α))
+    (P : Cell → Bool) (h : ∀ p ∈ src, P (cell3 Int.floor c o p) = true) :
+    ∀ j, j < src.length → P (cellAtOf Int.floor c o src j) = true := by
+  intro j hj
+  unfold cellAtOf
+  rw [List.getElem?_eq_getElem hj]
+  exact h _ (List.getElem_mem hj)
+
+/-- **LinkedListNNPS**: binning by head insertion into `head[flatten(cell)]`, then walking the
+chains of the valid cells among the 27 stencil cells, returns exactly the brute-force set
+(no duplicates, valid indices) — for every cloud whose particles lie in valid cells (see
+`cell_in_range`), every box `(ncx, ncy, ncz)` with `n_cells = ncx·ncy·ncz`, every cell size at
+least the cut-offs. -/
+theorem nbrs_exact_LinkedListNNPS (rs c : α) (o : Pt α) (nc : Nat × Nat × Nat)
+    (src : List (Pt α)) (q : Pt α)
+    (hc : 0 < c) (hrs : 0 ≤ rs) (hq : 0 ≤ q.h) (hqc : rs * q.h ≤ c)
+    (hsrc : ∀ p ∈ src, 0 ≤ p.h ∧ rs * p.h ≤ c)
+    (hvalid : ∀ p ∈ src, isValidCell nc (cell3 Int.floor c o p) = true) :
+    let cands := llCands nc (nc.1 * nc.2.1 * nc.2.2) src.length (cellAtOf Int.floor c o src)
+      (cell3 Int.floor c o q)
+    (nbrsOf rs src q cands).Perm (bruteForce rs src q) ∧ (nbrsOf rs src q cands).Nodup ∧
+      ∀ j ∈ nbrsOf rs src q cands, j < src.length := by
+  intro cands
+  refine nbrs_exact_of_cands_perm_grid rs c o src q cands ?_ hc hrs hq hqc hsrc
+  rw [gridCands_eq_stencilIdx]
+  exact ll_cands_perm nc src.length _ _ (cellAt_valid c o src (isValidCell nc) hvalid)
+
+/-- **BoxSortNNPS**: the same walk with the dense index `cell_to_index[flatten(cell)]` of the
+`std::map` built by `_count_occupied_cells` over the flattened ids `ids` of all particles of all
+arrays (only `ids ⊇` this array's ids is used). -/
+theorem nbrs_exact_BoxSortNNPS (rs c : α) (o : Pt α) (nc : Nat × Nat × Nat) (ids : List Int)
+    (src : List (Pt α)) (q : Pt α)
+    (hc : 0 < c) (hrs : 0 ≤ rs) (hq : 0 ≤ q.h) (hqc : rs * q.h ≤ c)
+    (hsrc : ∀ p ∈ src, 0 ≤ p.h ∧ rs * p.h ≤ c)
+    (hvalid : ∀ p ∈ src, isValidCell nc (cell3 Int.floor c o p) = true)
+    (hids : ∀ p ∈ src, flattenCell nc (cell3 Int.floor c o p) ∈ ids) :
+    let cands := boxCands nc (occupied ids) src.length (cellAtOf Int.floor c o src)
+      (cell3 Int.floor c o q)
+    (nbrsOf rs src q cands).Perm (bruteForce rs src q) ∧ (nbrsOf rs src q cands).Nodup ∧
+      ∀ j ∈ nbrsOf rs src q cands, j < src.length := by
+  intro cands
+  refine nbrs_exact_of_cands_perm_grid rs c o src q cands ?_ hc hrs hq hqc hsrc
+  rw [gridCands_eq_stencilIdx]
+  refine box_cands_perm nc _ src.length _ _ (cellAt_valid c o src (isValidCell nc) hvalid) ?_
+  intro j hj
+  unfold cellAtOf
+  rw [List.getElem?_eq_getElem hj, mem_occupied]
+  exact hids _ (List.getElem_mem hj)
+
+/-- **SpatialHashNNPS**: exact for every table size ≥ 1 (every bucket index is then inside
+the table), whatever cells collide. -/
+theorem nbrs_exact_SpatialHashNNPS (rs c : α) (o : Pt α) (size : Nat) (hsize : 1 ≤ size)
+    (src : List (Pt α)) (q : Pt α)
+    (hc : 0 < c) (hrs : 0 ≤ rs) (hq : 0 ≤ q.h) (hqc : rs * q.h ≤ c)
+    (hsrc : ∀ p ∈ src, 0 ≤ p.h ∧ rs * p.h ≤ c)
+    (hlo : ∀ p ∈ src, o.x ≤ p.x ∧ o.y ≤ p.y ∧ o.z ≤ p.z) :
+    let cands := shCands (spatialHash size) src.length (cellAtOf Int.floor c o src) (hAtOf src)
+      (cell3 Int.floor c o q)
+    ((nbrsOf rs src q cands).Perm (bruteForce rs src q) ∧ (nbrsOf rs src q cands).Nodup ∧
+      ∀ j ∈ nbrsOf rs src q cands, j < src.length) ∧ ∀ cell, spatialHash size cell < size := by
+  intro cands
+  refine ⟨?_, spatialHash_lt size hsize⟩
+  refine nbrs_exact_of_cands_perm_grid rs c o src q cands ?_ hc hrs hq hqc hsrc
+  rw [gridCands_eq_stencilIdx]
+  exact sh_cands_perm _ src.length _ _ _
+    (cellAt_valid c o src nonnegCell (fun p hp => cell_nonneg c o p hc (hlo p hp)))
+
+/-- **DictBoxSortNNPS**: `items` is whatever `_bin` inserted for all arrays, in any order; the
+items of the source array `s` are its particles with their cells in index order. -/
+theorem nbrs_exact_DictBoxSortNNPS (rs c : α) (o : Pt α) (items : List (Nat × Nat × Cell))
+    (s : Nat) (src : List (Pt α)) (q : Pt α)
+    (hc : 0 < c) (hrs : 0 ≤ rs) (hq : 0 ≤ q.h) (hqc : rs * q.h ≤ c)
+    (hsrc : ∀ p ∈ src, 0 ≤ p.h ∧ rs * p.h ≤ c)
+    (hitems : items.filter (fun t => t.1 = s) =
+      dictItems s src.length (cellAtOf Int.floor c o src)) :
+    let cands := dictCands (dictBuild items) s (cell3 Int.floor c o q)
+    (nbrsOf rs src q cands).Perm (bruteForce rs src q) ∧ (nbrsOf rs src q cands).Nodup ∧
+      ∀ j ∈ nbrsOf rs src q cands, j < src.length := by
+  intro cands
+  refine nbrs_exact_of_cands_perm_grid rs c o src q cands ?_ hc hrs hq hqc hsrc
+  rw [gridCands_eq_stencilIdx]
+  exact dict_cands_perm items s src.length _ _ hitems
+
+/-! ### CellIndexing: packed 32-bit keys -/
+
+/-- **pack_unpack.**  Under the explicit no-overflow guard `ciFits` (index below `2^I`, x cell
+below `2^J`, y cell below `2^K`, whole sum below `2^32`), `_get_id`, `_get_x`, `_get_y`,
+`_get_z` recover exactly what `_get_key` packed. -/
+theorem pack_unpack (I J K n : Nat) (c : Nat × Nat × Nat) (h : ciFits I J K n c = true) :
+    ciId I (ciKey I J K n c) = n ∧ ciCell I J K (ciKey I J K n c) = c :=
+  ⟨(ci_unpack I J K n c h).1, (ci_unpack I J K n c h).2.1⟩
+
+/-- **pack_inj.**  Under the guard two keys coincide only for the same particle index and the
+same cell. -/
+theorem pack_inj (I J K n n' : Nat) (c c' : Nat × Nat × Nat) (h : ciFits I J K n c = true)
+    (h' : ciFits I J K n' c' = true) (e : ciKey I J K n c = ciKey I J K n' c') :
+    n = n' ∧ c = c' :=
+  ci_pack_inj I J K n n' c c' h h' e
+
+/-- **CellIndexingNNPS** under the guard: every particle's key and the key of every visited
+stencil box fit (for whatever bit widths `I, J, K` the `log2` expressions produced).  Sorting the
+keys, detecting the runs of equal decoded cells, `std::map` lookup of the box key and the walk
+over the run return exactly the brute-force set. -/
+theorem nbrs_exact_CellIndexingNNPS (rs c : α) (o : Pt α) (I J K : Nat)
+    (src : List (Pt α)) (q : Pt α)
+    (hc : 0 < c) (hrs : 0 ≤ rs) (hq : 0 ≤ q.h) (hqc : rs * q.h ≤ c)
+    (hsrc : ∀ p ∈ src, 0 ≤ p.h ∧ rs * p.h ≤ c)
+    (hlo : ∀ p ∈ src, o.x ≤ p.x ∧ o.y ≤ p.y ∧ o.z ≤ p.z)
+    (hfit : ∀ j, j < src.length → ciFits I J K j (cellAtOf Int.floor c o src j).toNat3 = true)
+    (hbox : ∀ b ∈ neighborBoxesZ (cell3 Int.floor c o q), ciFits I J K 0 b.toNat3 = true) :
+    let cands := ciCands I J K src.length (cellAtOf Int.floor c o src) (cell3 Int.floor c o q)
+    (nbrsOf rs src q cands).Perm (bruteForce rs src q) ∧ (nbrsOf rs src q cands).Nodup ∧
+      ∀ j ∈ nbrsOf rs src q cands, j < src.length := by
+  intro cands
+  refine nbrs_exact_of_cands_perm_grid rs c o src q cands ?_ hc hrs hq hqc hsrc
+  rw [gridCands_eq_stencilIdx]
+  exact ci_cands_perm I J K src.length _ _
+    (cellAt_valid c o src nonnegCell (fun p hp => cell_nonneg c o p hc (hlo p hp))) hfit hbox
+
 end grid
 
-/-! ## storage: linked list -/
+/-- The guard is necessary: with `J = 0` bits for the x cell (what
+`<u_int>(1 + log2(ceil(0/cell_size)))` yields for a cloud without extent in x) the boxes
+`(1, 0, 0)` and `(0, 1, 0)` of the stencil get the same key, and the particle of cell `(0,1,0)`
+is visited twice (three particles with cells `(0,0,0), (0,0,0), (0,1,0)`, `I = 2`, `K = 2`;
+this is the input of `proposed_fixes/C01-cellindexing-zero-extent-bits.diff`). -/
+theorem ci_guard_necessary :
+    ¬ (ciCands 2 0 2 3 (fun j => if j = 2 then (0, 1, 0) else (0, 0, 0)) (0, 0, 0)).Nodup := by
+  decide +kernel
 
-theorem build_snoc (items : List (Nat × Nat)) (x : Nat × Nat) :
-    LL.build (items ++ [x]) = (LL.build items).insert x := by
-  simp [LL.build, List.foldl_append]
+/-- NOT proved: CellIndexing without the guard ("aliased boxes only add candidates that fail
+the acceptance test and two stencil boxes never alias").  `ci_guard_necessary` shows that it is
+false for the bit widths the pinned code computes on clouds without x (or y) extent. -/
+def nbrs_exact_CellIndexingNNPS_unguarded : Prop :=
+  ∀ (rs c : ℚ) (o : Pt ℚ) (I J K : Nat) (src : List (Pt ℚ)) (q : Pt ℚ),
+    0 < c → 0 ≤ rs → 0 ≤ q.h → rs * q.h ≤ c → (∀ p ∈ src, 0 ≤ p.h ∧ rs * p.h ≤ c) →
+    (∀ p ∈ src, o.x ≤ p.x ∧ o.y ≤ p.y ∧ o.z ≤ p.z) →
+    (nbrsOf rs src q (ciCands I J K src.length (cellAtOf Int.floor c o src)
+      (cell3 Int.floor c o q))).Perm (bruteForce rs src q)
+
+/-! ## Sub-grid family (ExtendedSpatialHashNNPS, exact mode) -/
+section subgrid
+variable {α : Type} [Field α] [LinearOrder α] [IsStrictOrderedRing α] [FloorRing α]
+
+/-- **subgrid_cover.**  With sub-cells of size `c/H` (`H ≥ 1`), a neighbour `p` of `q` whose
+cut-off does not exceed the cell size `c` lies in a sub-cell whose offset `m` from the query's
+sub-cell satisfies, on every axis, `|m| ≤ H` (inside the mask `±H`) and
+`|m| ≤ ⌈rs·max(hm, h_q)/(c/H)⌉` for every `hm ≥ h_p` (the per-box cut with the box's `h_max`). -/
+theorem subgrid_cover (rs c : α) (H : Nat) (o q p : Pt α) (hm : α) (hc : 0 < c) (hH : 1 ≤ H)
+    (hrs : 0 ≤ rs) (hq : 0 ≤ q.h) (hp : 0 ≤ p.h) (hqc : rs * q.h ≤ c) (hpc : rs * p.h ≤ c)
+    (hhm : p.h ≤ hm) (h : isNbr rs q p = true) :
+    let a := cell3 Int.floor (c / (H : α)) o p
+    let b := cell3 Int.floor (c / (H : α)) o q
+    let K := ⌈rs * fmaxA hm q.h / (c / (H : α))⌉
+    ((a.1 - b.1).natAbs ≤ H ∧ (a.2.1 - b.2.1).natAbs ≤ H ∧ (a.2.2 - b.2.2).natAbs ≤ H) ∧
+    (((a.1 - b.1).natAbs : Int) ≤ K ∧ ((a.2.1 - b.2.1).natAbs : Int) ≤ K ∧
+      ((a.2.2 - b.2.2).natAbs : Int) ≤ K) := by
+  intro a b K
+  have hHpos : (0 : α) < (H : α) := by exact_mod_cast hH
+  have hs : 0 < c / (H : α) := div_pos hc hHpos
+  have key : ∃ r, 0 ≤ r ∧ r ≤ c ∧ r ≤ rs * fmaxA hm q.h ∧ dist2 p q < r * r := by
+    rcases (isNbr_iff rs q p).mp h with h1 | h1
+    · exact ⟨rs * q.h, mul_nonneg hrs hq, hqc,
+        mul_le_mul_of_nonneg_left (fmaxA_ge_right _ _) hrs, h1⟩
+    · exact ⟨rs * p.h, mul_nonneg hrs hp, hpc,
+        mul_le_mul_of_nonneg_left (le_trans hhm (fmaxA_ge_left _ _)) hrs, h1⟩
+  obtain ⟨r, hr0, hrc, hrR, hd⟩ := key
+  obtain ⟨hx, hy, hz⟩ := lt_cell_of_dist2_lt hr0 hd
+  have hKH : ⌈r / (c / (H : α))⌉ ≤ (H : Int) := by
+    rw [Int.ceil_le, div_le_iff₀ hs]
+    have : ((H : Int) : α) * (c / (H : α)) = c := by
+      push_cast; field_simp
+    rw [this]; exact hrc
+  have hKK : ⌈r / (c / (H : α))⌉ ≤ K :=
+    Int.ceil_mono (div_le_div_of_nonneg_right hrR (le_of_lt hs))
+  have ax : ∀ (u v o' : α), |u - v| < r →
+      ((⌊(u - o') / (c / (H : α))⌋ - ⌊(v - o') / (c / (H : α))⌋).natAbs : Int) ≤
+        ⌈r / (c / (H : α))⌉ := by
+    intro u v o' huv
+    apply floor_adj_ceil _ _ r _ hs
+    have e : (u - o') - (v - o') = u - v := by ring
+    rw [e]; exact huv
+  have ax1 := ax p.x q.x o.x hx
+  have ax2 := ax p.y q.y o.y hy
+  have ax3 := ax p.z q.z o.z hz
+  simp only [a, b, cell3, cellOf]
+  refine ⟨⟨?_, ?_, ?_⟩, ⟨?_, ?_, ?_⟩⟩ <;> omega
+
+/-- **ExtendedSpatialHashNNPS (exact mode)**: particles hashed by sub-cell of size `c/H`, the
+full `±H` mask, the per-box cut with the box's `h_max`; exact for every `H ≥ 1`, every hash
+function / table size, every cloud with cut-offs at most `c`. -/
+theorem nbrs_exact_ExtendedSpatialHashNNPS (rs c : α) (H : Nat) (o : Pt α) (hash : Cell → Nat)
+    (src : List (Pt α)) (q : Pt α)
+    (hc : 0 < c) (hH : 1 ≤ H) (hrs : 0 ≤ rs) (hq : 0 ≤ q.h) (hqc : rs * q.h ≤ c)
+    (hsrc : ∀ p ∈ src, 0 ≤ p.h ∧ rs * p.h ≤ c)
+    (hlo : ∀ p ∈ src, o.x ≤ p.x ∧ o.y ≤ p.y ∧ o.z ≤ p.z) :
+    let cands := eshCands Int.ceil hash H rs (c / (H : α)) src.length
+      (cellAtOf Int.floor (c / (H : α)) o src) (hAtOf src) q.h (cell3 Int.floor (c / (H : α)) o q)
+    (nbrsOf rs src q cands).Perm (bruteForce rs src q) ∧ (nbrsOf rs src q cands).Nodup ∧
+      ∀ j ∈ nbrsOf rs src q cands, j < src.length := by
+  intro cands
+  have hHpos : (0 : α) < (H : α) := by exact_mod_cast hH
+  have hs : 0 < c / (H : α) := div_pos hc hHpos
+  refine exact_of_cover_nodup rs src q cands ?_ (eshCands_nodup _ _ _ _ _ _ _ _ _ _)
+  intro j hj ha
+  have hjs : src[j]? = some src[j] := List.getElem?_eq_getElem hj
+  have hn : isNbr rs q src[j] = true := by simpa [accepts, hjs] using ha
+  have hmem : src[j] ∈ src := List.getElem_mem hj
+  obtain ⟨e, hget, hmax⟩ := hmax_hashItems hash src.length
+    (cellAtOf Int.floor (c / (H : α)) o src) (hAtOf src) j hj
+  have hcellj : cellAtOf Int.floor (c / (H : α)) o src j = cell3 Int.floor (c / (H : α)) o src[j] := by
+    simp only [cellAtOf, hjs]
+  have hhj : hAtOf src j = src[j].h := by simp only [hAtOf, hjs]
+  rw [hhj] at hmax
+  obtain ⟨⟨m1, m2, m3⟩, ⟨k1, k2, k3⟩⟩ := subgrid_cover rs c H o q src[j] e.hmax hc hH hrs hq
+    (hsrc _ hmem).1 hqc (hsrc _ hmem).2 hmax hn
+  rw [hcellj] at hget
+  show j ∈ eshCands Int.ceil hash H rs (c / (H : α)) src.length
+    (cellAtOf Int.floor (c / (H : α)) o src) (hAtOf src) q.h (cell3 Int.floor (c / (H : α)) o q)
+  generalize cell3 Int.floor (c / (H : α)) o q = b at m1 m2 m3 k1 k2 k3 ⊢
+  have hnn := cell_nonneg _ o _ hs (hlo _ hmem)
+  generalize hadef : cell3 Int.floor (c / (H : α)) o src[j] = a at m1 m2 m3 k1 k2 k3 hget hnn hcellj
+  have hadd : Cell.add b (a.1 - b.1, a.2.1 - b.2.1, a.2.2 - b.2.2) = a := by
+    simp only [Cell.add]
+    ext <;> simp
+  apply mem_eshCands Int.ceil hash H rs (c / (H : α)) src.length _ (hAtOf src) q.h b j hj
+    (a.1 - b.1, a.2.1 - b.2.1, a.2.2 - b.2.2)
+  · exact (mem_hMaskExact H _).mpr ⟨m1, m2, m3⟩
+  · unfold eshBoxOk
+    rw [hadd, hget]
+    simp only [Bool.and_eq_true, decide_eq_true_eq]
+    exact ⟨hnn, ⟨k1, k2⟩, k3⟩
+  · rw [hadd, hcellj]
+
+end subgrid
+
+/-! ## storage: linked list -/
 
 /-- After any insertion sequence with distinct particle ids, walking `head[c]`
 (with at least as much fuel as there are particles) lists exactly the inserted
@@ -227,53 +523,8 @@ theorem ll_traverse_eq_bucket (items : List (Nat × Nat))
     (hnd : (items.map (·.1)).Nodup) (c : Nat) :
     ∀ n, items.length ≤ n →
       (LL.build items).traverse n c =
-        ((items.filter (fun ic => ic.2 = c)).map (·.1)).reverse := by
-  induction items using List.reverseRecOn with
-  | nil =>
-    intro n _
-    simp [LL.traverse, LL.build, LL.empty]
-    cases n <;> rfl
-  | append_singleton items x ih =>
-    intro n hn
-    obtain ⟨i, c'⟩ := x
-    have hnd' : (items.map (·.1)).Nodup ∧ i ∉ items.map (·.1) := by
-      rw [List.map_append, List.nodup_append] at hnd
-      refine ⟨hnd.1, fun hm => ?_⟩
-      exact hnd.2.2 i hm i (by simp) rfl
-    have hlen : items.length + 1 ≤ n := by simpa using hn
-    have ihn := ih hnd'.1
-    have hnotin : ∀ m, items.length ≤ m → i ∉ (LL.build items).walk m ((LL.build items).head c) := by
-      intro m hm hmem
-      have := ihn m hm
-      simp only [LL.traverse] at this
-      rw [this] at hmem
-      simp only [List.mem_reverse, List.mem_map, List.mem_filter] at hmem
-      obtain ⟨a, ⟨ha, _⟩, hai⟩ := hmem
-      exact hnd'.2 (List.mem_map.mpr ⟨a, ha, hai⟩)
-    rw [build_snoc]
-    simp only [LL.traverse, List.filter_append, List.map_append, List.reverse_append]
-    by_cases hcc : c' = c
-    · subst hcc
-      obtain ⟨m, rfl⟩ : ∃ m, n = m + 1 := ⟨n - 1, by omega⟩
-      have hm : items.length ≤ m := by omega
-      have hhead : ((LL.build items).insert (i, c')).head c' = some i := by simp [LL.insert]
-      have hnext : ((LL.build items).insert (i, c')).next i = (LL.build items).head c' := by
-        simp [LL.insert]
-      rw [hhead]
-      simp only [LL.walk, hnext]
-      rw [walk_insert_of_not_mem _ _ _ _ _ (hnotin m hm)]
-      have := ihn m hm
-      simp only [LL.traverse] at this
-      rw [this]
-      simp
-    · have hhead : ((LL.build items).insert (i, c')).head c = (LL.build items).head c := by
-        simp only [LL.insert]
-        rw [if_neg (fun e => hcc e.symm)]
-      rw [hhead, walk_insert_of_not_mem _ _ _ _ _ (hnotin n (by omega))]
-      have := ihn n (by omega)
-      simp only [LL.traverse] at this
-      rw [this]
-      simp [hcc]
+        ((items.filter (fun ic => ic.2 = c)).map (·.1)).reverse :=
+  traverse_eq_bucket items hnd c
 
 /-! ## neighbour cache -/
 
